@@ -25,13 +25,26 @@ Init == tid \in 1..Len(Traces) /\ l = 1 /\ st = OS!Start /\ ok = "ok"
 \* the newline push is recognised by its argument: newline string followed by the base indent
 IsNewline(e) == e.k = "t" /\ e.arg = Tr.nl \o Tr.base
 
+\* Lines of the final result as the library itself splits lines (split_lines(): CR LF, CR or LF).  For the usual newline strings
+\* this is the number of newline strings; it differs exactly when a line break reached the result without going through the
+\* newline push (which is what keeps line and column exact).
+RECURSIVE CountBr(_, _), LastBrEnd(_, _)
+CountBr(str, i) == IF i > Len(str) THEN 0
+                   ELSE IF At(str, i) = "\r" /\ At(str, i + 1) = "\n" THEN 1 + CountBr(str, i + 2)
+                   ELSE IF At(str, i) \in {"\r", "\n"} THEN 1 + CountBr(str, i + 1)
+                   ELSE CountBr(str, i + 1)
+LastBrEnd(str, i) == IF i < 1 THEN 0 ELSE IF At(str, i) \in {"\r", "\n"} THEN i ELSE LastBrEnd(str, i - 1)
+Usual == Tr.nl \in {"\n", "\r\n", "\r"}
+LineOfResult(off) == IF Usual THEN CountBr(SubSeq(Final, 1, off), 1) ELSE OS!LineOf(Final, Tr.nl, off)
+ColumnOfResult(off) == IF Usual THEN off - LastBrEnd(Final, off) ELSE OS!ColumnOf(Final, Tr.nl, off)
+
 Judge(e) == IF e.off # st.offset THEN "offset"
             ELSE IF e.line # st.line THEN "line"
             ELSE IF e.col # st.column THEN "column"
             ELSE IF e.off + Len(e.ret) > Len(Final) THEN "placement"
             ELSE IF e.ret # "" /\ SubSeq(Final, e.off + 1, e.off + Len(e.ret)) # e.ret THEN "placement"
-            ELSE IF e.line # OS!LineOf(Final, Tr.nl, e.off) THEN "line-vs-result"
-            ELSE IF e.col # OS!ColumnOf(Final, Tr.nl, e.off) THEN "column-vs-result"
+            ELSE IF e.line # LineOfResult(e.off) THEN "line-vs-result"
+            ELSE IF e.col # ColumnOfResult(e.off) THEN "column-vs-result"
             ELSE "ok"
 
 Push == /\ l <= Len(Ev) /\ ok = "ok" /\ ~IsNewline(Ev[l])
